@@ -635,7 +635,15 @@ def l2_upgrade(ck, th, seed):
             dict(name='L2 upgrade negative control: a GET that ignores the two flags lets messages '
                       'travel on polling after the upgrade',
                  spec='UpSpec', consts=up_consts(5, BadFrames='FALSE', Deviation='"PollIgnoresFlags"'),
-                 invariants=['InOrderUp'], properties=['OneTransport'], must_fail=True)]
+                 invariants=['InOrderUp'], properties=['OneTransport'], must_fail=True),
+            dict(name='L2 upgrade negative control: the gate reading upgraded before upgrading lets a '
+                      'GET through between the two final writes',
+                 spec='UpSpec', consts=up_consts(5, BadFrames='FALSE', Deviation='"GateReadsSwapped"'),
+                 invariants=['InOrderUp'], properties=['OneTransport'], must_fail=True),
+            dict(name='L2 upgrade negative control: upgrading = False written before upgraded = True '
+                      'opens the gate for the width of one statement',
+                 spec='UpSpec', consts=up_consts(5, BadFrames='FALSE', Deviation='"FlagWritesSwapped"'),
+                 invariants=['InOrderUp', 'GateHeld'], properties=['OneTransport'], must_fail=True)]
     for j in jobs:
         cfg = tlc.cfg_text(spec=j['spec'], constants=j['consts'], invariants=j.get('invariants', ()),
                            properties=j.get('properties', ()))
